@@ -77,8 +77,14 @@ func wiringByName(name string) *wiring {
 			{Kind: "fkcons", Store: "emp", Field: "boss", Target: "emp", Nullable: true, Casc: "N"},
 		}}
 	}
+	// wirings registered by property-specific files (not part of allWirings)
+	if f, ok := extraWirings[name]; ok {
+		return f()
+	}
 	return nil
 }
+
+var extraWirings = map[string]func() *wiring{}
 
 var allWirings = []string{"idx", "fkc", "casc"}
 
